@@ -62,12 +62,12 @@ type deferEntry struct {
 }
 
 type State struct {
-	heaps   map[string]string // heap name -> current term
-	hsort   map[string]string // heap name -> sort (shared, never diverges)
-	cells   map[string]Val    // cell id -> current value
+	heaps   map[string]string     // heap name -> current term
+	hsort   map[string]string     // heap name -> sort (shared, never diverges)
+	cells   map[string]Val        // cell id -> current value
 	src     map[types.Object]Val  // source variable -> value (or pointer for addressable vars)
 	srcAddr map[types.Object]bool // whether src[obj] is the address of the variable
-	escaped map[string]bool   // cells whose address escaped
+	escaped map[string]bool       // cells whose address escaped
 }
 
 func NewState() *State {
@@ -114,24 +114,28 @@ type Obligation struct {
 	Ms      int64
 	Model   string
 	Output  string
-	NoSlice bool // include the whole theory (consistency check)
-	Static  bool // decided at generation time (census)
+	Clause  *Clause // the contract clause behind an ensures/returns obligation (used by the replay driver)
+	NoSlice bool    // include the whole theory (consistency check)
+	Static  bool    // decided at generation time (census)
 	Aux     string
 }
 
 type VC struct {
-	decls   []string
-	declSet map[string]bool
-	lines   []string
-	obls    []*Obligation
-	fresh   int
-	allocs  []string
-	sorts   []string
-	clock   string // term denoting the allocation time of the most recent allocation / loop epoch
-	sidx    *sliceIndex
+	fn       *ssa.Function // function under contract (nil for lemmas / theory)
+	topKey   string
+	params   []replayParam // its parameters' symbolic entry values
+	decls    []string
+	declSet  map[string]bool
+	lines    []string
+	obls     []*Obligation
+	fresh    int
+	allocs   []string
+	sorts    []string
+	clock    string // term denoting the allocation time of the most recent allocation / loop epoch
+	sidx     *sliceIndex
 	allocSet map[string]bool
-	notes   []string // unmodelled constructs, havocked calls, inlined functions
-	noteSet map[string]bool
+	notes    []string // unmodelled constructs, havocked calls, inlined functions
+	noteSet  map[string]bool
 }
 
 func (vc *VC) note(kind, s string) {
@@ -206,38 +210,39 @@ func sanitize(s string) string {
 // Generator
 
 type Gen struct {
-	prog   *ssa.Program
-	pkgs   map[string]*ssa.Package // by package path
-	byName map[string]*ssa.Package // by package name (repo packages win)
-	repoPfx string
-	cs     *Contracts
-	vc     *VC
-	fset   *token.FileSet
-	bv     bool // current function in bit-vector mode
-	structs map[string]*types.Struct // declared datatypes
-	strLits map[string]string
-	tags    map[string]int
-	tagTypes []types.Type
-	maxInline int
-	curTop  string
-	funcByKey map[string]*ssa.Function
-	methByKey map[string]*types.Func
-	frameSeq int
-	pureDeclared bool
-	timeoutS int
-	dry       int
-	ws        *writeSet
-	seenCall  map[*Clause]bool
-	siteOrds  map[*Clause]map[ssa.Instruction]int
-	inlineExt map[string]bool
-	impByName map[string]*types.Package
-	lockObls  bool
-	keyPaths  map[string]string
-	keyAlias  map[*ssa.Function]string
-	heapTy    map[string]types.Type // Go type of the elements of a field heap
-	coveredSite map[ssa.Instruction]bool
-	inInit    bool
-	panicPre  string // `panics-unless` condition of the nopanic function being verified (entry state); nopanic goals are proved under it
+	prog             *ssa.Program
+	pkgs             map[string]*ssa.Package // by package path
+	byName           map[string]*ssa.Package // by package name (repo packages win)
+	repoPfx          string
+	cs               *Contracts
+	vc               *VC
+	fset             *token.FileSet
+	bv               bool                     // current function in bit-vector mode
+	structs          map[string]*types.Struct // declared datatypes
+	strLits          map[string]string
+	tags             map[string]int
+	tagTypes         []types.Type
+	maxInline        int
+	curTop           string
+	funcByKey        map[string]*ssa.Function
+	methByKey        map[string]*types.Func
+	frameSeq         int
+	pureDeclared     bool
+	timeoutS         int
+	dry              int
+	ws               *writeSet
+	seenCall         map[*Clause]bool
+	siteOrds         map[*Clause]map[ssa.Instruction]int
+	inlineExt        map[string]bool
+	impByName        map[string]*types.Package
+	lockObls         bool
+	keyPaths         map[string]string
+	keyAlias         map[*ssa.Function]string
+	heapTy           map[string]types.Type // Go type of the elements of a field heap
+	coveredSite      map[ssa.Instruction]bool
+	inInit           bool
+	replaysDone      int
+	panicPre         string // `panics-unless` condition of the nopanic function being verified (entry state); nopanic goals are proved under it
 	unstableGlobals  map[string]bool
 	unstablePointees map[string]bool
 }
